@@ -18,7 +18,10 @@ Definition ktoggle (m : Z) (k : list Z) : list Z := if existsb (Z.eqb m) k then 
 Record kst := { k_marker : pystr; k_multi : bool; k_keys : list Z }.
 Fixpoint kscan (s : pystr) (x : kst) : res kst :=
   match s with
-  | [] => Ok x
+  | [] =>
+      if k_multi x && py_isdigit (skipn 1 (k_marker x))
+      then bind (py_int (skipn 1 (k_marker x))) (fun m => Ok {| k_marker := []; k_multi := false; k_keys := ktoggle m (k_keys x) |})
+      else Ok x
   | c :: r =>
       match (if k_multi x && negb (is_digit c)
              then bind (py_int (skipn 1 (k_marker x))) (fun m => Ok {| k_marker := []; k_multi := false; k_keys := ktoggle m (k_keys x) |})
@@ -78,7 +81,13 @@ Lemma ring_scan_keys cur : forall s idx x k x1 rdx, krel x k ->
   ring_scan cur s idx x = Ok (x1, rdx) -> exists k1, kscan s k = Ok k1 /\ krel x1 k1.
 Proof.
   induction s as [|c r IH]; intros idx x k x1 rdx (Rm & Ru & Rk) H.
-  - cbn in H. injection H as <- _. exists k. split; [reflexivity|]. repeat split; assumption.
+  - destruct k as [km ku kk]. cbn [k_marker k_multi k_keys] in Rm, Ru, Rk. subst km ku kk.
+    cbn [ring_scan kscan k_marker k_multi k_keys] in *.
+    destruct (r_multi x && py_isdigit (skipn 1 (r_marker x))).
+    + destruct (py_int (skipn 1 (r_marker x))) as [m|]; cbn [bind] in *; [|discriminate]. injection H as <- _.
+      eexists. split; [reflexivity|]. unfold krel. cbn [k_marker k_multi k_keys]. rewrite keys_commit.
+      unfold ring_commit. destruct (cyc_get m (r_cyc x)) as [[? ?]|]; repeat split; reflexivity.
+    + injection H as <- _. eexists. split; [reflexivity|]. repeat split; reflexivity.
   - destruct k as [km ku kk]. cbn [k_marker k_multi k_keys] in Rm, Ru, Rk. subst km ku kk.
     cbn [ring_scan kscan k_marker k_multi k_keys] in *.
     assert (Hc : forall m (y : ringst), krel (ring_commit m cur y)
@@ -131,7 +140,7 @@ Proof.
   destruct (opened st pc) as [[[br ba] rc]|]; cbn [bind]; [|discriminate].
   destruct (ring_scan (s_current st) rest 0 (clean_st (s_cycle st) [])) as [[rs rdx]|]; cbn [bind]; [|discriminate].
   destruct (bond_expr rest rdx) as [bo|]; cbn [bind]; [|discriminate].
-  destruct (nmon_expr rest) as [n|]; cbn [bind]; [|discriminate].
+  destruct (nmon_expr rest bo) as [[n bo2]|]; cbn [bind]; [|discriminate].
   destruct (parse_graph_base_node fo nm) as [a|]; cbn [bind]; [|discriminate].
   match goal with |- (bind ?m _ = _ -> _) => destruct m as [rc'|] end; cbn [bind]; [|discriminate].
   destruct (add_nodes _ _ _ _ _ _ _ _) as [[[[g cu] pn] pb]|]; cbn [bind]; [|discriminate].
